@@ -363,3 +363,52 @@ def c17(chk):
     chk.canary_cases(r["cases_file"], flip_iota_case)
     chk.assumptions += ["decision-table property: no recorded-trace direction; every table row is executed on the real code",
                         "prefix_hex trusted for hex decoding of the 32 tag bytes"]
+
+
+# ------------------------------------------------------------------------------------------------
+# C06 — revocation bitmaps
+# ------------------------------------------------------------------------------------------------
+
+def flip_v_in_trace(evs):
+    for i in range(len(evs) // 2, len(evs)):
+        r = evs[i].get("res", {})
+        if evs[i]["op"]["name"] == "query" and isinstance(r.get("v"), bool):
+            r["v"] = not r["v"]
+            return "event %d query answer flipped" % (i + 1)
+    raise ToolError("canary: no query event")
+
+
+def flip_v_case(rows, k=3):
+    out = []
+    for r in rows:
+        if r["op"]["name"] == "query":
+            r = json.loads(json.dumps(r))
+            r["res"]["v"] = not r["res"]["v"]
+            out.append(r)
+            if len(out) >= k:
+                break
+    if not out:
+        raise ToolError("canary: no query case")
+    return out
+
+
+@plan("C06")
+def c06(chk):
+    chk.rule = ("TLC enumerates all 16 member sets over 4 index classes x every operation (revoke/unrevoke of every class subset, "
+                "endpoint encode/decode, legacy double-encoded endpoint, query of every class, validator status check for every "
+                "class x 3 StatusCheck modes x 7 status shapes). Each transition is replayed on a raw RevocationBitmap, a "
+                "CoreDocument service and an IotaDocument service, with the classes realised as 1 / 100 000 dense (crossing a "
+                "roaring container boundary) / 3 000 sparse / 8 boundary+extreme u32 indices; after every operation the "
+                "membership of every concrete index of every class and of 14 neighbour indices is compared, via the endpoint a "
+                "third party would read. Random batch histories over plain indices are trace-validated (cardinality and every "
+                "query answer).")
+    r = chk.mc("RevocationBitmap", "RevocationBitmap_%s.cfg" % chk.tier, workers=4, timeout=300, heap="2g")
+    chk.replay(r["cases_file"], timeout=3000)
+    chk.canary_cases(r["cases_file"], flip_v_case)
+    n_ev, n_tr = q(chk, (400, 2), (1500, 10))
+    record_and_validate(chk, "C06", "RevocationBitmapTrace", "RevocationBitmapTrace.cfg", n_ev, n_tr,
+                        "revocation_bitmap/trace", canary=flip_v_in_trace, timeout=1800)
+    chk.assumptions += ["roaring (bitmap) and flate2 (zlib) are trusted codecs; what is checked is that the library hands them "
+                        "the right data and recognises its own and the legacy encoding",
+                        "trace direction uses indices below 2^31 (TLC integers are 32 bit); larger ones are covered by class 3 in "
+                        "the replay direction"]
